@@ -397,6 +397,32 @@ impl Interp {
                 let Some(Obj::Stream(o)) = self.objs.get_mut(*name) else { return "bad-op".into() };
                 o.eof(&self.rt).text()
             }
+            ["nonce.cnt", iv, n] => {
+                // the real `CountingNonceGenerator` after `n` earlier calls
+                let (Some(mut buf), Some(n)) = (unhex(iv), n.parse::<u64>().ok()) else { return "bad-op".into() };
+                if buf.len() < 12 || n > 10_000_000 {
+                    return "bad-op".into();
+                }
+                let mut g = octo_squirrel::codec::aead::CountingNonceGenerator::new(12);
+                let mut out = vec![];
+                for _ in 0..=n {
+                    out = g.generate(&mut buf).to_vec();
+                }
+                hex(&out)
+            }
+            ["nonce.inc", n] => {
+                // the real `IncreasingNonceGenerator`: the nonce handed out by call number `n` (0-based)
+                let Some(n) = n.parse::<u64>().ok() else { return "bad-op".into() };
+                if n > 10_000_000 {
+                    return "bad-op".into();
+                }
+                let mut g = octo_squirrel::codec::aead::IncreasingNonceGenerator::init();
+                let mut out = vec![];
+                for _ in 0..=n {
+                    out = g.generate().to_vec();
+                }
+                hex(&out)
+            }
             ["addr.accept", a] => {
                 let Some(a) = parse_addr(a) else { return "bad-op".into() };
                 match octo_squirrel_client::client::verif::handshake::check_address(a) {
